@@ -152,9 +152,36 @@ func c29Run(ops []c29Op) (V, Verdict) {
 	ambiguous := false
 	nWrites, nFan, maxBound, unbinds, dup := 0, 0, 0, 0, false
 	var log []c29Capture
+	// every packet a caller handed to WriteRTP stays the caller's: checked again after each later op
+	type heldPkt struct {
+		at     int
+		p, was *rtp.Packet
+	}
+	var held []heldPkt
 
 	for k, op := range ops {
 		switch op.K {
+		case 4: // Write(bytes) of a marshalled packet: direct oracle only (the model sees WriteRTP)
+			pk := op.P.build()
+			pk.Header.Padding, pk.Header.PaddingSize, pk.PaddingSize = false, 0, 0
+			raw, merr := pk.Marshal()
+			if merr != nil {
+				panic(merr)
+			}
+			rawBefore := append([]byte{}, raw...)
+			log = log[:0]
+			_, _ = track.Write(raw)
+			if !bytes.Equal(raw, rawBefore) {
+				fail("static-caller-bytes-modified", fmt.Sprintf("op %d: Write changed the caller's buffer", k))
+			}
+			if !ambiguous && len(log) != len(bound) {
+				fail("static-delivery-count", fmt.Sprintf("op %d: Write reached %d writers with %d bindings", k, len(log), len(bound)))
+			}
+			for _, c := range log {
+				if !bytes.Equal(c.payload, pk.Payload) {
+					fail("static-payload-changed", fmt.Sprintf("op %d: Write delivered payload %x, caller's %x", k, c.payload, pk.Payload))
+				}
+			}
 		case 1:
 			ctx := &c29Ctx{id: fmt.Sprintf("ctx-%d", op.ID), ssrc: op.SSRC,
 				w: &c29Writer{idx: op.W, fail: op.Fail, log: &log}}
@@ -216,6 +243,7 @@ func c29Run(ops []c29Op) (V, Verdict) {
 			beforeRaw := *p
 			log = log[:0]
 			werr := track.WriteRTP(p)
+			held = append(held, heldPkt{k, p, before})
 			nWrites++
 			if len(bound) > maxBound {
 				maxBound = len(bound)
@@ -311,6 +339,12 @@ func c29Run(ops []c29Op) (V, Verdict) {
 			}
 			if len(want) > 0 {
 				fail("static-write-missed-binding", fmt.Sprintf("op %d: bound writer %d (ctx %d) got nothing", k, want[0].w, want[0].id))
+			}
+		}
+		for _, h := range held {
+			if h.at < k && !reflect.DeepEqual(h.p, h.was) {
+				fail("static-caller-packet-modified-later",
+					fmt.Sprintf("op %d changed the packet the caller passed to WriteRTP at op %d: %+v became %+v", k, h.at, h.was, h.p))
 			}
 		}
 	}
@@ -425,7 +459,11 @@ func c29Gen(r *Rand, i int) []c29Op {
 				delete(boundIDs, id)
 			}
 		default:
-			ops = append(ops, c29Op{K: 3, P: c29GenPkt(r)})
+			if r.Chance(1, 4) {
+				ops = append(ops, c29Op{K: 4, P: c29GenPkt(r)})
+			} else {
+				ops = append(ops, c29Op{K: 3, P: c29GenPkt(r)})
+			}
 		}
 	}
 	return ops
